@@ -30,6 +30,8 @@ type realTask struct {
 	allowFail bool
 	ignoreInt bool // the process ignores SIGINT: only the kill timeout ends it
 	signaled  bool // the task's last command kills itself with SIGKILL (exit 137): a failure like any other
+	trailing  int  // further commands of the script after the one that runs for durMs (a stop or a failure there leaves them unexecuted)
+	leading   bool // a command in front of it
 }
 
 func (t realTask) fails() bool { return t.exit != 0 || t.parseErr }
@@ -39,7 +41,7 @@ func genRealGraph(t *rapid.T, maxTasks int, withFailures bool) []realTask {
 	names := rapid.Permutation([]string{"a", "b", "c", "d", "e"}).Draw(t, "names")[:n]
 	var ts []realTask
 	for i := 0; i < n; i++ {
-		rtk := realTask{name: names[i], durMs: rapid.IntRange(5, 90).Draw(t, "durMs")}
+		rtk := realTask{name: names[i], durMs: rapid.IntRange(5, 90).Draw(t, "durMs"), trailing: rapid.SampledFrom([]int{0, 0, 1, 2}).Draw(t, "trailingCommands"), leading: rapid.IntRange(0, 3).Draw(t, "leadingCommand") == 0}
 		for j := 0; j < i; j++ {
 			if rapid.IntRange(0, 2).Draw(t, "edge") == 0 {
 				rtk.deps = append(rtk.deps, names[j])
@@ -74,6 +76,14 @@ func graphDef(vh, marker, ready string, ts []realTask, cont bool) definition.Pip
 			script = "echo 'unterminated " + tk.name
 		}
 		lines := []string{script}
+		if !tk.parseErr {
+			if tk.leading {
+				lines = append([]string{"echo before-" + tk.name}, lines...)
+			}
+			for k := 0; k < tk.trailing; k++ {
+				lines = append(lines, fmt.Sprintf("echo after-%s-%d", tk.name, k))
+			}
+		}
 		if tk.signaled {
 			// the helper ends normally, then a command of the task dies from a signal nobody of the runner sent
 			lines = []string{fmt.Sprintf("%s hang %s-%s --ready %s.%s --for %dms --exit 0", vh, marker, tk.name, ready, tk.name, tk.durMs), "sh -c 'kill -KILL $$'"}
@@ -91,6 +101,9 @@ func describeGraph(ts []realTask) string {
 	var parts []string
 	for _, tk := range ts {
 		s := fmt.Sprintf("%s<-%v %dms", tk.name, tk.deps, tk.durMs)
+		if tk.trailing > 0 || tk.leading {
+			s += fmt.Sprintf(" +%d commands", tk.trailing+btoi(tk.leading))
+		}
 		if tk.exit != 0 {
 			s += fmt.Sprintf(" exit%d", tk.exit)
 		}
